@@ -206,6 +206,48 @@ def run_ladim(conf_file: Path, cwd: Path | None = None) -> RunResult:
     return RunResult("ok")
 
 
+def run_two_models_alive(conf_a: Path, conf_b: Path, cwd: Path, steps_a_first: int = 2) -> RunResult:
+    """Two Model objects alive in one process: A is built and stepped a little, then B is built, then both are stepped in turn and finished
+    (what a script that couples or compares two simulations does).  Same error classification as run_ladim."""
+    from ladim.configure import configure  # noqa: PLC0415
+    from ladim.model import Model  # noqa: PLC0415
+
+    old = os.getcwd()
+    os.chdir(cwd)
+    root = logging.getLogger()
+    if not root.handlers:
+        root.addHandler(logging.NullHandler())
+    try:
+        A = Model(configure(conf_a))
+        na, nb = A.timer.Nsteps, None
+        ia = ib = 0
+        for _ in range(min(steps_a_first, na)):
+            A.update()
+            ia += 1
+        B = Model(configure(conf_b))
+        nb = B.timer.Nsteps
+        while ia < na or ib < nb:
+            if ia < na:
+                A.update()
+                ia += 1
+            if ib < nb:
+                B.update()
+                ib += 1
+        B.finish()
+        A.finish()
+    except SystemExit as e:
+        return RunResult("exit", code=e.code, exc=f"SystemExit({e.code})", tb=traceback.format_exc(limit=-6))
+    except HarnessError:
+        raise
+    except Exception as e:  # noqa: BLE001
+        if getattr(e, "_vmon_harness", False) or (not getattr(e, "_vmon_target", False) and _is_harness_tb(e.__traceback__)):
+            raise HarnessError(f"exception in harness code during ladim run: {e!r}\n{traceback.format_exc()}") from e
+        return RunResult("error", exc=f"{type(e).__name__}: {e}", tb=traceback.format_exc(limit=-8))
+    finally:
+        os.chdir(old)
+    return RunResult("ok")
+
+
 def output_files(conf: dict[str, Any]) -> list[Path]:
     if "filename" not in conf.get("output", {}):
         return []
